@@ -41,6 +41,7 @@ def correspondence(ctx):
     for name in S.ALL:
         rng = ctx.rng("c09", name)
         bench = B.Bench(name, rng, size=2 * L + 6, need_hash=False)
+        B.probe_unrankable(ctx, "C09", bench)
         stream = "invert:" + name
         if not bench.ok(2 * L + 2):
             ctx.stream(stream)["skipped"] = "pool too small"
